@@ -14,6 +14,7 @@ import (
 	"net/http"
 	"net/url"
 	"sort"
+	"strconv"
 	"strings"
 	"sync"
 	"time"
@@ -619,6 +620,12 @@ func redactURLInMessage(msg, rawURL string) string {
 	for _, s := range secrets {
 		if s != "" {
 			msg = strings.ReplaceAll(msg, s, "<redacted>")
+			// A validator that prints with %q escapes quotes, backslashes and
+			// non-printable bytes, so the secret appears in its Go-quoted
+			// spelling rather than verbatim.
+			if q := strconv.Quote(s); q[1:len(q)-1] != s {
+				msg = strings.ReplaceAll(msg, q[1:len(q)-1], "<redacted>")
+			}
 		}
 	}
 	return msg
